@@ -281,7 +281,9 @@ func c08Matrix() ([]c08Prov, []c08Xform) {
 		{"2DUP", func(x []byte) []byte { return append(append(p(x), p(x)...), 0x6e) }},
 		{"3DUP", func(x []byte) []byte { return append(append(append(filler, p(x)...), p(x)...), 0x6f) }},
 		{"OVER", func(x []byte) []byte { return append(append(p(x), filler...), 0x78) }},
-		{"2OVER", func(x []byte) []byte { return append(append(append(append(filler, p(x)...), filler...), filler...), 0x70, 0x75) }},
+		{"2OVER", func(x []byte) []byte {
+			return append(append(append(append(filler, p(x)...), filler...), filler...), 0x70, 0x75)
+		}},
 		{"PICK", func(x []byte) []byte { return append(append(append(p(x), filler...), filler...), 0x52, 0x79) }},
 		{"TUCK", func(x []byte) []byte { return append(append(filler, p(x)...), 0x7d) }},
 		{"IFDUP", func(x []byte) []byte { return append(p(x), 0x73) }},
